@@ -3,6 +3,8 @@ pub mod tree;
 pub mod specgraph;
 pub mod regexdfa;
 pub mod bignum;
+pub mod docgen;
+pub mod invariants;
 
 use serde_json::{json, Value};
 use std::collections::{BTreeMap, BTreeSet};
@@ -250,8 +252,13 @@ impl Ctx {
 }
 
 /// run `f`, converting a panic into Err(message)
+thread_local! { static GUARD_DEPTH: std::cell::Cell<u32> = const { std::cell::Cell::new(0) }; }
+
 pub fn guarded<T>(f: impl FnOnce() -> T) -> Result<T, String> {
-    match std::panic::catch_unwind(std::panic::AssertUnwindSafe(f)) {
+    GUARD_DEPTH.with(|d| d.set(d.get() + 1));
+    let r = std::panic::catch_unwind(std::panic::AssertUnwindSafe(f));
+    GUARD_DEPTH.with(|d| d.set(d.get() - 1));
+    match r {
         Ok(v) => Ok(v),
         Err(e) => {
             let msg = if let Some(s) = e.downcast_ref::<&str>() {
@@ -281,6 +288,10 @@ pub fn install_panic_hook() {
                 format!("{}:{}", f, l.line())
             })
             .unwrap_or_else(|| "?".into());
+        if GUARD_DEPTH.with(|d| d.get()) == 0 {
+            // a panic of the harness itself (not of the subject under a guard): machinery failure, make it visible
+            eprintln!("MACHINERY: harness panic at {loc}: {info}");
+        }
         LAST_PANIC_LOC.with(|c| *c.borrow_mut() = Some(loc));
     }));
 }
